@@ -344,11 +344,16 @@ def device_regs(fam: str, serial: str, rated: int) -> dict[int, int]:
         for i in range(8):
             regs[35003 + i] = int.from_bytes(sn[2 * i:2 * i + 2], "big")
         regs[35001] = rated
-        for i, ch in enumerate(b"GW10K-ET  "):
-            pass
+        # one model name for every tag (the vendor reuses model names across hardware platforms): registers 35011..35015
+        mn = b"GW10K-ET  "
+        for i in range(5):
+            regs[35011 + i] = int.from_bytes(mn[2 * i:2 * i + 2], "big")
     elif fam == "DT":
         for i in range(8):
             regs[30004 + i] = int.from_bytes(sn[2 * i:2 * i + 2], "big")   # response bytes 6..22 -> 30001+3
+        mn = b"GW10K-DT  "
+        for i in range(5):
+            regs[30012 + i] = int.from_bytes(mn[2 * i:2 * i + 2], "big")   # response bytes 22..32
     return regs
 
 
